@@ -28,6 +28,21 @@ thread_local! {
 
 static FAIL_FD: AtomicI32 = AtomicI32::new(-1);
 
+/// `HeaderCodec::read_response` asks for a zeroed 10 MiB buffer per call; obtaining and
+/// returning such a block from the kernel costs ~1.5 ms under load (more than the decoding
+/// itself).  One such block per thread is recycled instead: it is handed out by
+/// `alloc_zeroed`, and when it comes back the prefix a case can have written (the input
+/// length, the reader never writes more) is cleared again.  Every 256th recycle the whole
+/// block is checked to be zero (a violation of the assumption stops the run as a machinery
+/// error instead of corrupting later cases).
+pub const POOLED_SIZE: usize = 10 * 1024 * 1024;
+thread_local! {
+    static POOLED: Cell<*mut u8> = const { Cell::new(std::ptr::null_mut()) };
+    static OUT: Cell<*mut u8> = const { Cell::new(std::ptr::null_mut()) };
+    static DIRTY: Cell<usize> = const { Cell::new(0) };
+    static RECYCLES: Cell<u64> = const { Cell::new(0) };
+}
+
 pub fn set_fail_fd(fd: i32) {
     FAIL_FD.store(fd, Ordering::SeqCst);
 }
@@ -41,6 +56,7 @@ pub fn case_begin(decoder: usize, fixture: usize, input: &[u8]) {
     LIVE.with(|c| c.set(0));
     PEAK.with(|c| c.set(0));
     BIGGEST.with(|c| c.set(0));
+    DIRTY.with(|c| c.set(input.len().saturating_add(4096).min(POOLED_SIZE)));
 }
 
 /// (peak live bytes, largest single request) of the case that just ran on this thread.
@@ -151,6 +167,24 @@ unsafe impl GlobalAlloc for CountingAlloc {
         p
     }
     unsafe fn alloc_zeroed(&self, l: Layout) -> *mut u8 {
+        if l.size() == POOLED_SIZE && l.align() == 1 {
+            let pooled = POOLED.with(|c| c.replace(std::ptr::null_mut()));
+            if !pooled.is_null() {
+                OUT.with(|c| c.set(pooled));
+                on_alloc(l.size());
+                return pooled;
+            }
+            let p = unsafe { System.alloc_zeroed(l) };
+            if p.is_null() {
+                on_refused(l.size());
+            } else {
+                if OUT.with(|c| c.get()).is_null() {
+                    OUT.with(|c| c.set(p));
+                }
+                on_alloc(l.size());
+            }
+            return p;
+        }
         let p = unsafe { System.alloc_zeroed(l) };
         if p.is_null() {
             on_refused(l.size());
@@ -161,9 +195,34 @@ unsafe impl GlobalAlloc for CountingAlloc {
     }
     unsafe fn dealloc(&self, p: *mut u8, l: Layout) {
         on_free(l.size());
+        if l.size() == POOLED_SIZE && l.align() == 1 && OUT.with(|c| c.get()) == p {
+            OUT.with(|c| c.set(std::ptr::null_mut()));
+            if POOLED.with(|c| c.get()).is_null() {
+                let dirty = DIRTY.with(|c| c.get()).min(POOLED_SIZE);
+                unsafe { std::ptr::write_bytes(p, 0, dirty) };
+                let n = RECYCLES.with(|c| {
+                    c.set(c.get() + 1);
+                    c.get()
+                });
+                if n % 256 == 1 {
+                    let all = unsafe { std::slice::from_raw_parts(p, POOLED_SIZE) };
+                    if all.iter().any(|b| *b != 0) {
+                        let msg = b"MACHINERY-ERROR property=C16 recycled 10 MiB read buffer was written beyond the input length\n";
+                        unsafe { libc::write(2, msg.as_ptr() as *const _, msg.len()) };
+                        unsafe { libc::_exit(2) };
+                    }
+                }
+                POOLED.with(|c| c.set(p));
+                return;
+            }
+        }
         unsafe { System.dealloc(p, l) }
     }
     unsafe fn realloc(&self, p: *mut u8, l: Layout, new_size: usize) -> *mut u8 {
+        if OUT.with(|c| c.get()) == p {
+            // the block leaves the recycling regime
+            OUT.with(|c| c.set(std::ptr::null_mut()));
+        }
         let np = unsafe { System.realloc(p, l, new_size) };
         if np.is_null() {
             on_refused(new_size);
